@@ -422,9 +422,110 @@ def execute(ex: Execution, pname: str, backend: str, crash_at: int | None, netwo
     return obs, v
 
 
+def wf_chain_tagged() -> Any:
+    async def s1(self, ctx, ev, inv):  # noqa: ANN001
+        await gate(f"s1:{ev.get('tag')}")
+        return A(uid={"x": 1, "y": 2}[ev.get("tag")])
+
+    async def s2(self, ctx, ev, inv):  # noqa: ANN001
+        await gate(f"s2:{ev.uid}")
+        return StopEvent(result=f"chain:{ev.uid * 10}")
+
+    return make_workflow("ChainTagged", [make_step("s1", [StartEvent], [A], s1), make_step("s2", [A], [StopEvent], s2)])
+
+
+def execute_two(ex: Execution, backend: str, crash_at: int) -> tuple[Any, list[Any]]:
+    """two runs of one workflow (different inputs, different results) are under way when the process stops after the k-th tick
+    persisted for EITHER of them; the restarted server finds both handlers and must bring each to its own result"""
+    sh.clear_graveyard()
+    sh.reset_ids()
+    path = sh.fresh_sqlite_path() if backend == "sqlite" else None
+    store = sh.make_store(backend, path)
+    ctl = sh.CrashControl(crash_at)
+    expected = {"hx": "chain:10", "hy": "chain:20"}
+    e = EngineExec(ex, RunConfig(max_actions=120, allow_time=False))
+    e.__enter__()
+    crashed = False
+    try:
+        try:
+            ctl.arm(store)
+            stack = sh.Stack(store, idle_timeout=10_000.0, wrap_basic=MonRuntime)
+            wf = wf_chain_tagged()(timeout=None)
+            stack.add_workflow("wf", wf)
+
+            async def boot() -> None:
+                await stack.service.start()
+                await stack.service.start_workflow(wf, "hx", StartEvent(tag="x"))
+                await stack.service.start_workflow(wf, "hy", StartEvent(tag="y"))
+
+            e.loop.create_task(boot())
+            e.drive()
+        except sh.Crash:
+            crashed = True
+        vt = e.loop.vt
+    finally:
+        if crashed:
+            sh.bury(e.loop)
+            e.abandon()
+        else:
+            e.__exit__(None, None, None)
+        ctl.disarm(store)
+    if not crashed:
+        return {"skipped": True, "_metrics": {"max_concurrency": 1}}, []
+    store2 = store if backend == "memory" else SqliteWorkflowStore(path, poll_interval=1.0, auto_migrate=False)
+    loop2 = VLoop()
+    loop2.vt = vt
+    v: list[Any] = []
+    with EngineExec(ex, RunConfig(max_actions=120, allow_time=False), loop=loop2) as e2:
+        async def rows() -> Any:
+            return {h.handler_id: h for h in await store2.query(HandlerQuery(handler_id_in=["hx", "hy"]))}
+
+        t0 = loop2.create_task(rows())
+        loop2.drain()
+        before = t0.result()
+        logs = {hid: _persisted_ticks(loop2, store2, h.run_id) for hid, h in before.items() if h.run_id}
+        stack2 = sh.Stack(store2, idle_timeout=10_000.0)
+        wf2 = wf_chain_tagged()(timeout=None)
+        stack2.add_workflow("wf", wf2)
+        e2.loop.create_task(stack2.service.start())
+        e2.drive()
+        t1 = loop2.create_task(rows())
+        loop2.drain()
+        after = t1.result()
+        for hid, want in expected.items():
+            h = after.get(hid)
+            if h is None:
+                continue  # the process stopped before this run was started: nothing was accepted for it
+            ticks = logs.get(hid, [])
+            if not ticks:
+                # nothing of this run was persisted yet (not even its StartEvent): the statement is about persisted points;
+                # the server marks such a handler failed ("crashed before persisting any state"), by design
+                continue
+            last = ticks[-1] if ticks else {}
+            lost = "none"
+            if last.get("type") == "step_result" and not _is_terminal_tick(last) and any(
+                    r.get("type") == "result" and r.get("result") is not None for r in last.get("result", [])):
+                lost = "step_output_not_yet_queued"
+            got = h.result.result if h.result is not None else None
+            if h.status != "completed" or got != want:
+                kind = "stays_running" if h.status == "running" else ("wrong_result" if h.status == "completed" else f"ends_{h.status}")
+                v.append(("resumed_run_differs_from_uninterrupted",
+                          {"program": "two_runs", "kind": kind, "lost_at_crash": lost, "handler_marked_idle_at_crash": bool(before[hid].idle_since is not None),
+                           "log_already_terminal": any(_is_terminal_tick(td) for td in ticks), "nonmatching_response_in_log": False,
+                           "other_run_log_already_terminal": any(_is_terminal_tick(td) for o, tl in logs.items() if o != hid for td in tl)},
+                          f"[{backend}] two runs, process stopped after persisted tick {crash_at}, restarted; schedule {ex.labels}: handler {hid} "
+                          f"status={h.status} result={got!r} error={h.error!r}; expected completed {want!r} (its log: {[t.get('type') for t in ticks]})"))
+        obs = {"status": {k: x.status for k, x in after.items()}, "_metrics": {"max_concurrency": 2}}
+    return obs, v
+
+
 def programs(tier: str) -> list[Program]:
     ps: list[Program] = []
     q = tier == "quick"
+    for backend in ("memory", "sqlite"):
+        for k in range(1, 13):
+            ps.append(Program(f"two_runs/{backend}/crash_after_tick_{k:02d}", {"program": "two_runs", "backend": backend, "crash_at": k},
+                              (lambda ex, backend=backend, k=k: execute_two(ex, backend, k)), max_dev=(2 if q else 4)))
     for pname in PROGRAMS:
         if pname == "wait_released_then_answered":
             continue  # (programs listed separately below)
@@ -467,7 +568,7 @@ RULE = ("9 deterministic workflows (3-step chain, fan-out/fan-in with collect_ev
         "order-sensitive fan-in, zero-delay retries, catch_error recovery, waiter + "
         "external response without / with requirements, a step failure that ends the run, a run cancelled by the client at any point) on the real server stack over MemoryWorkflowStore (instance survives) and "
         "SqliteWorkflowStore (file survives) x process stop right after the k-th persisted tick for every k up to the length of the log "
-        "x a fresh stack resuming through PersistenceDecorator.launch() (optionally stopped again after the j-th tick it persisted itself, "
+        "(and two runs with different inputs under way at once) x a fresh stack resuming through PersistenceDecorator.launch() (optionally stopped again after the j-th tick it persisted itself, "
         "and restarted once more) x all schedules of all phases within the deviation bound; the "
         "resumed handler must end completed with the uninterrupted result, and a log that already contains the terminal tick must be "
         "finalized without running a step; non-trivial = executions that actually restarted")
